@@ -1133,8 +1133,15 @@ impl<T: Transport, Env: UtpEnvironment> VirtualSocket<T, Env> {
 
             (Established, ST_FIN) => {
                 trace!("state: established -> last-ack");
-                let our_fin = self.seq_nr;
-                self.seq_nr += 1;
+                // Our FIN goes after everything that is already segmented, sent or not. Otherwise a
+                // queued but unsent segment and the FIN would get the same sequence number.
+                let next_unsegmented = self.user_tx_segments.next_seq_nr();
+                let our_fin = if next_unsegmented > self.seq_nr {
+                    next_unsegmented
+                } else {
+                    self.seq_nr
+                };
+                self.seq_nr = our_fin + 1;
                 self.state = LastAck {
                     our_fin,
                     remote_fin: hdr.seq_nr,
